@@ -64,6 +64,11 @@ pub struct Txtpp {
     ///
     /// This is to track we don't unnecessarily process the same file twice in the first pass
     files: HashSet<AbsPath>,
+    /// Directories already scheduled for scanning
+    ///
+    /// A directory can be reached more than once (duplicate inputs, or a symlink
+    /// pointing to one of its ancestors). It is scanned only once.
+    dirs: HashSet<AbsPath>,
 }
 
 impl Txtpp {
@@ -100,6 +105,7 @@ impl Txtpp {
             send,
             recv,
             files: HashSet::new(),
+            dirs: HashSet::new(),
         };
 
         let result = runtime.run_internal();
@@ -138,7 +144,6 @@ impl Txtpp {
             })?;
         let mut dep_mgr = DepManager::new();
         let mut file_count = 0;
-        let _ = self.progress.add_total(inputs.subdirs.len());
 
         // schedule input files
         for file in inputs.files {
@@ -179,7 +184,6 @@ impl Txtpp {
                         e.change_context(TxtppError)
                             .attach_printable("cannot scan directory")
                     })?;
-                    let _ = self.progress.add_total(directory.subdirs.len());
                     for file in directory.files {
                         self.execute_file(file, true)?;
                     }
@@ -256,6 +260,10 @@ impl Txtpp {
     }
 
     fn execute_directory(&mut self, dir: AbsPath, recursive: bool) {
+        if !self.dirs.insert(dir.clone()) {
+            return;
+        }
+        let _ = self.progress.add_total(1);
         let _ = self
             .progress
             .print_status(verbs::SCANNING, &dir.to_string(), Color::Yellow, true);
